@@ -75,6 +75,7 @@ def line_lower_bound(spec, info, i, shown=None):
 # ---- typed data columns: every dtype the library renders can hold the row's tallest cell
 TYPED_KINDS = ["Int64", "Int8", "UInt64", "Float64", "Float32", "Boolean", "Date", "Datetime", "Time", "Decimal:6",
                "Categorical"]
+_SHORT = ("Boolean", "Int8", "Date", "Time")
 _SIZES = [24, 18, 14, 12, 10, 9, 8, 7.5, 6]
 _PHRASES = ["not evaluable at this visit", "see listing 16.2.7", "a somewhat longer remark that wraps in a narrow column"]
 
@@ -138,6 +139,8 @@ def typed_columns(rng, spec, info):
         rel[first] = rng.choice([1, 2, 3])
         for j in range(first + 1, ncols):
             rel[j] = rng.choice([0.5, 0.75, 1, 1, 1.5])
+            if typed[cols[j]] in _SHORT and rng.random() < 0.6:
+                rel[j] = rng.choice([0.2, 0.3, 0.5])      # 'True', '-128', a date: tall only in a narrow column
         body["col_rel_width"] = rel
     rel = laygen.displayed_rel(spec, info)
     width = {c: info["col_total"] * rel[k] / sum(rel) for k, c in enumerate(info["displayed"])}
@@ -156,7 +159,7 @@ def typed_columns(rng, spec, info):
     for j in range(first + 1, ncols):
         def worst(sz):
             return max([laygen.measure(docgen.cell_str(spec["df"], j, r[j]), fonts[j], sz) for r in rows] or [0.0])
-        if typed[cols[j]] in ("Boolean", "Int8", "Date", "Time") and rng.random() < 0.6:
+        if typed[cols[j]] in _SHORT and rng.random() < 0.6:
             # dtypes whose display text is always short: wrap them through the size of the column's font
             fit = [sz for sz in _SIZES if 1.1 * width[cols[j]] < worst(sz) <= 5.8 * width[cols[j]]]
             if fit:
